@@ -181,6 +181,8 @@ fn func_random(ctx: &EvalContext, args: &[Expr]) -> Result<i64, ExprError> {
     if max <= 1 {
         return Err(ExprErrorKind::EmptyRandomRange(max).into());
     }
+    #[cfg(feature = "verif-hooks")]
+    crate::verif_hooks::log_event(crate::verif_hooks::RngEvent::Bound(max));
     Ok(ctx.random(1..max))
 }
 
